@@ -16,7 +16,7 @@ import functools
 import random
 from collections import Counter
 
-from vsim.core import EventLog, RunResult, Tapes, use_repo
+from vsim.core import EventLog, RunResult, Tapes, use_repo, task_exc
 from vsim.fs import SimDisk, patched_fs
 from vsim.gw import SimTransport, gc_paused
 from vsim.loop import new_loop
@@ -486,8 +486,8 @@ def _run(scn, cfg, w, res):
         tt = loop.create_task(Persistence(loaded, "/sim/check.json").load())
         w.tapes = Tapes({})
         loop.run_until_idle(10)
-        if not tt.done() or tt.exception() is not None:
-            res.violate(PROP, f"{label}-image", f"unreadable:{extra}", f"{tt.exception() if tt.done() else 'hang'!r}"[:300])
+        if not tt.done() or task_exc(tt) is not None:
+            res.violate(PROP, f"{label}-image", f"unreadable:{extra}", f"{task_exc(tt) if tt.done() else 'hang'!r}"[:300])
         elif snapshot(loaded) != want_snap:
             res.violate(PROP, f"{label}-image", f"differs-from-registry:{extra}",
                         f"want {want_snap} got {snapshot(loaded)}"[:500])
@@ -594,9 +594,9 @@ def _second_session(scn, cfg, w, gw, kind, res, after_disk_fault=False):
     tt = loop.create_task(Persistence(loaded2, "/sim/check.json").load())
     w.tapes = Tapes({})
     loop.run_until_idle(10)
-    if not tt.done() or tt.exception() is not None or snapshot(loaded2) != snapshot(gw.nodes):
+    if not tt.done() or task_exc(tt) is not None or snapshot(loaded2) != snapshot(gw.nodes):
         res.violate(PROP, "final-image", "differs-from-registry:second-context" + tag,
-                    f"want {sorted(gw.nodes)} got {sorted(loaded2) if tt.done() and not tt.exception() else tt}")
+                    f"want {sorted(gw.nodes)} got {sorted(loaded2) if tt.done() and not task_exc(tt) else tt}")
 
 
 def _phase(st, saves) -> str:
